@@ -257,6 +257,19 @@ fn delivery_scenarios(lvl: u8, tag: &str) -> Vec<Scenario> {
             out.push(scn(format!("{tag}-{n}-3senders-{third:?}"), vec![a], clients, &[]));
         }
     }
+    // a handler that panics while its asker waits: the ask fails, but never with the error that promises "not handled"
+    for cap in [1usize, 2] {
+        for kind in [SendKind::Ask, SendKind::AskTO(30)] {
+            let mut ids = Ids(0);
+            let boom = MsgSpec::m1(ids.next()).steps(vec![Step::Yield]).out(Outcome::Panic(9));
+            let c0 = Program::new(vec![(0, 0)], vec![send(kind, 0, boom)]);
+            let c1 = Program::new(vec![(0, 0)], vec![send(SendKind::Ask, 0, MsgSpec::m1(ids.next())), send(SendKind::Tell, 0, MsgSpec::m1(ids.next()))]);
+            let mut a = ActorSpec::plain(cap);
+            a.on_start = gated(Outcome::Ok);
+            n += 1;
+            out.push(scn(format!("{tag}-{n}-handler-panics-cap{cap}-{kind:?}"), vec![a], vec![c0, c1], &[]));
+        }
+    }
     // the last external reference travels inside a queued message
     {
         let mut ids = Ids(0);
@@ -779,7 +792,40 @@ fn gen_c07(lvl: u8) -> Vec<Scenario> {
                 let mut a = ActorSpec::plain(4);
                 a.on_run = run.clone();
                 n += 1;
-                out.push(scn(format!("c07-{n}-run{ri}-o{other}-{hist:?}"), vec![a], vec![c0, c1], &["probe"]));
+                out.push(scn(format!("c07-{n}-run{ri}-o{other}-{hist:?}"), vec![a.clone()], vec![c0.clone(), c1.clone()], &["probe"]));
+                // the same history with a shutdown hook that takes its time (two suspension points)
+                if hist.len() <= 2 || (thorough && hist.len() <= 3) {
+                    a.on_stop = HookSpec { entry_yield: true, steps: vec![Step::Yield], out: Outcome::Ok, free: false };
+                    n += 1;
+                    out.push(scn(format!("c07-{n}-slowstop-run{ri}-o{other}-{hist:?}"), vec![a], vec![c0, c1], &["probe"]));
+                }
+            }
+        }
+    }
+    // a long backlog (more than the default capacity of 32) built up while the actor starts, then stop / last drop /
+    // nothing: every message is handled, the actor ends or keeps serving as the references say
+    for nmsg in if thorough { vec![33usize, 40, 70] } else { vec![40usize] } {
+        // besides the three scripts above: an idle handler that waits forever from its first invocation
+        let mut runs_b = runs.clone();
+        runs_b.push(vec![HookSpec { entry_yield: false, steps: vec![], out: Outcome::Pend, free: false }]);
+        for (ri, run) in runs_b.iter().enumerate() {
+            for ending in 0..3 {
+                let mut ids = Ids(0);
+                let mut a = ActorSpec::plain(nmsg);
+                a.on_start = gated(Outcome::Ok);
+                a.on_run = run.clone();
+                let mut steps: Vec<Step> = Vec::new();
+                for _ in 0..nmsg {
+                    steps.push(send(SendKind::Tell, 0, MsgSpec::quick(ids.next())));
+                }
+                match ending {
+                    0 => steps.push(Step::Stop(0)),
+                    1 => steps.push(Step::DropH(0)),
+                    _ => {}
+                }
+                let c0 = Program { slots: vec![(0, 0)], steps, auto_yield: false, free: false };
+                n += 1;
+                out.push(scn(format!("c07-{n}-backlog{nmsg}-run{ri}-end{ending}"), vec![a], vec![c0], &["probe"]));
             }
         }
     }
@@ -977,6 +1023,27 @@ fn gen_c08(lvl: u8) -> Vec<Scenario> {
                 n += 1;
                 out.push(scn(format!("c08-{n}-free-onrun-cap{cap}-order{order}-{out2:?}"), vec![a], vec![Program::new(vec![(0, 0)], steps)], &[]));
             }
+        }
+    }
+    // on_run queues a message for its own actor (or kills it) and asks to run again in the same breath: the next
+    // invocation may not start before the message is handled (or at all, after the kill)
+    for free_run in [false, true] {
+        for act in 0..3 {
+            let mut ids = Ids(0);
+            let mut a = ActorSpec::plain(2);
+            let first = match act {
+                0 => vec![Step::Mark(1), send(SendKind::Tell, SELF_SLOT, MsgSpec::quick(ids.next()))],
+                1 => vec![Step::Mark(1), Step::Yield, send(SendKind::Tell, SELF_SLOT, MsgSpec::quick(ids.next())), Step::Fuse, send(SendKind::Tell, SELF_SLOT, MsgSpec::quick(ids.next()))],
+                _ => vec![Step::Mark(1), Step::Kill(SELF_SLOT)],
+            };
+            a.on_run = vec![
+                HookSpec { entry_yield: false, steps: first, out: Outcome::OkTrue, free: free_run },
+                HookSpec { entry_yield: false, steps: vec![Step::Mark(2), Step::Yield, Step::Mark(3)], out: Outcome::OkTrue, free: free_run },
+                HookSpec { entry_yield: false, steps: vec![Step::Mark(4)], out: Outcome::OkFalse, free: free_run },
+            ];
+            let c0 = Program::new(vec![(0, 0)], vec![send(SendKind::Tell, 0, MsgSpec::quick(ids.next()))]);
+            n += 1;
+            out.push(scn(format!("c08-{n}-self-feeding-onrun-act{act}-free{free_run}"), vec![a], vec![c0], if act == 2 { &["selfkill_in_on_run"] } else { &[] }));
         }
     }
     // a client that is woken by on_run just before on_run returns, and sends at once
